@@ -168,7 +168,8 @@ structure Shape (s s1 : Sys) : Prop where
   admitted : s1.admitted = s.admitted
   clfin : s1.cl.finished = s.cl.finished
   newp : ∃ new, s1.procs = s.procs ++ new ∧ ∀ q ∈ new, q.alive = true ∧ q.pc = 0 ∧
-    q.k.isDW = false ∧ q.k.isPI = false ∧ q.k.isAI = false ∧ q.k.isTel = false
+    q.k.isDW = false ∧ q.k.isPI = false ∧ q.k.isAI = false ∧ q.k.isTel = false ∧
+    q.k.tag ≠ "ingestStream" ∧ (∀ c, q.k = .hot2cold c → c = none) ∧ (∀ c, q.k = .cold2hot c → c = none)
 
 theorem Shape.refl (s : Sys) : Shape s s := ⟨rfl, rfl, rfl, rfl, [], by simp, by simp⟩
 
@@ -215,10 +216,12 @@ theorem Pres.core {s s1 : Sys} (e : Core8 s s1) : Pres s s1 :=
   Pres.frame (ClQuiet.of_eq e.cl) (TaskMono.of_eq e.tasks) e.obs e.procs e.nextPid e.starts e.active
     e.admitted
 
-theorem Pres.spawn (s : Sys) (k : PK) (now : Time) (hk : k.neutral) : Pres s (s.spawn k now).1 := by
+theorem Pres.spawn (s : Sys) (k : PK) (now : Time) (hk : k.neutral)
+    (hk2 : k.tag ≠ "ingestStream" ∧ (∀ c, k = .hot2cold c → c = none) ∧ (∀ c, k = .cold2hot c → c = none)) :
+    Pres s (s.spawn k now).1 := by
   obtain ⟨k1, k2, k3, k4, k5⟩ := hk
   refine ⟨by simp, fun h => h.spawn k now, ?_, ?_, ?_,
-    ⟨rfl, rfl, rfl, rfl, _, spawn_procs s k now, by simp [k2, k3, k4, k5]⟩⟩
+    ⟨rfl, rfl, rfl, rfl, _, spawn_procs s k now, by simpa [k2, k3, k4, k5] using hk2⟩⟩
   · intro U _ h
     exact h.addProcs (ClQuiet.refl _) (TaskMono.refl _) (fun _ h => h) _ (spawn_procs s k now)
       (by simp [k1, k3])
